@@ -374,7 +374,10 @@ def attenuated(x, t, suspect_threshold, fail_threshold, test_period=None, min_ob
             out.append(fs(U))
             continue
         adm = set()
-        guard = any(near(s, thr, rel=1e-9, abs_=1e-12) for thr in (suspect_threshold, fail_threshold))
+        # max-min of dyadic values and the spread of identical values (exactly 0) are exact in every
+        # implementation; only a non-zero standard deviation is legitimately rounded
+        guard = check_type == "std" and s != 0 and any(
+            near(s, thr, rel=1e-9, abs_=1e-12) for thr in (suspect_threshold, fail_threshold))
         cands = [s] if not guard else [s - abs(s) * 2e-9 - 2e-12, s + abs(s) * 2e-9 + 2e-12]
         if guard:
             # every verdict reachable for some value inside the band (the two thresholds may lie
